@@ -108,13 +108,19 @@ def runAcc (cfg : Cfg) (op : String) (bufS bs ss os impl : String) : Option (Str
     let v := if impl == want then "ok"
       else if adds.all (fun a => a.2 < 2 ^ cfg.numBits) then "bad:want=" ++ want
       else "note:scalar>=2^MODULUS_BIT_SIZE"
-    some (m, v)
+    let tag := if buf = 0 then " @buf0" else
+      (if adds.length / buf = 0 then " @noflush" else if adds.length / buf = 1 then " @flush1" else " @flush2+")
+        ++ (if adds.length % buf = 0 then "" else "+tail")
+    some (m ++ tag, v)
   | "hashmap" =>
     let m := sOut (HashMapAcc.run cfg buf adds)
     let v := if impl == want then "ok"
       else if adds.all (fun a => a.2 < cfg.r ∧ AffPt.smul cfg.r a.1 = 0) then "bad:want=" ++ want
       else "note:base-outside-the-order-r-subgroup"
-    some (m, v)
+    let distinct := (adds.map (·.1)).eraseDups.length
+    let tag := (if distinct < adds.length then " @merge" else " @nomerge")
+      ++ (if buf ≠ 0 ∧ distinct ≥ buf then "+flush" else "")
+    some (m ++ tag, v)
   | _ => none
 
 end Curve
